@@ -45,6 +45,7 @@ def generate(rng, tier="quick"):
     from dsim.sim import gen_cfg
     cfg = gen_cfg(rng, world, fault_rate)
     cfg["default_resolver"] = rng.random() < 0.1          # Validator(schema) without resolver=
+    cfg["warnings_are_errors"] = rng.random() < 0.12      # python -W error
     nops = rng.randint(3, 14 if tier == "quick" else 24)
     enabled = [k for k in VALIDATION_OPS if rng.random() < 0.7] or ["is_valid", "take_close"]
     if rng.random() < 0.5:
@@ -136,7 +137,14 @@ def execute(scn):
     world, cfg = scn["world"], scn["cfg"]
     router = Router().install(scn.get("requests", False))
     instances = world["instances"]
+    if cfg.get("warnings_are_errors"):
+        # the interpreter was started with -W error (test suites do that): any warning the library issues while it
+        # works is an exception raised at that very line.  (Set before anything is built: it is ambient state.)
+        import warnings
+        warnings.simplefilter("error")
     actor = Actor(world, cfg, router)
+    if cfg.get("warnings_are_errors"):
+        actor.probe("warnings_are_errors")
 
     class CountingResolver(jsonschema.RefResolver):
         n_resolve = 0
